@@ -278,7 +278,10 @@ def execute(scn, guide=None, keep=False, observer=None):
     def handover_race(e):
         # printcore._start_sender publishes the Thread object before starting it; a disconnect()
         # that runs in between fails in _stop_sender -> join() (unchanged-tree race outside C16)
-        return isinstance(e, RuntimeError) and "before it is started" in str(e)
+        # (RuntimeError), or reads print_thread a second time after the print thread cleared it
+        # (AttributeError on None.join)
+        return ((isinstance(e, RuntimeError) and "before it is started" in str(e))
+                or (isinstance(e, AttributeError) and "'NoneType' object has no attribute 'join'" in str(e)))
 
     def main():
         w = state["w"] = mk_writer()
@@ -322,6 +325,10 @@ def execute(scn, guide=None, keep=False, observer=None):
                     w.connect()
                     k.ev("connect-timeout-attempt", "connected")
                     try:
+                        # not the situation this operation is after: let the start-up threads
+                        # finish (a disconnect racing them fails in several ways on the unchanged
+                        # tree, none of which C16 speaks about) and end the session normally
+                        common.quiesce(k, env)
                         w.disconnect(False)
                     except SimAbort:
                         raise
@@ -333,6 +340,12 @@ def execute(scn, guide=None, keep=False, observer=None):
                             # this belongs to a session C16 speaks about
                             k.ev("disc-handover-race")
                             k.probe("obs.thread_handover_race")
+                            state["stopped_after_loss"] = state["handover"] = True
+                        else:
+                            # whatever else this harness-made disconnect met: the attempt is not a
+                            # judged session, and a writer left in an unknown state is not one either
+                            k.ev("connect-attempt-disc-raise", type(e2).__name__, str(e2)[:80])
+                            k.probe("obs.attempt_disconnect_raised")
                             state["stopped_after_loss"] = state["handover"] = True
                 except SimAbort:
                     raise
